@@ -45,7 +45,11 @@ Read(k) ==
          [new |-> [i \in 1..(Whole(fed + k) - delivered) |-> delivered + i],   \* indexes delivered by this read
           residual |-> (fed + k) - SumTo(stream, Whole(fed + k))])
 
-Next == (\E s \in Streams : Choose(s)) \/ (\E k \in 1..ReadMax : Read(k))
+\* candidate read sizes (when cut points are prescribed only those, the end of the stream and a full-size read)
+Ks == IF Cuts = {} THEN 1..ReadMax
+      ELSE {c - fed : c \in {x \in Cuts \cup {Total(stream)} : x > fed}} \cup {ReadMax}
+ReadAny == \E k \in Ks : Read(k)
+Next == (\E s \in Streams : Choose(s)) \/ ReadAny
 Spec == Init /\ [][Next]_vars
 
 \* ---- the property
